@@ -149,6 +149,75 @@ def array_recursive(items):
     return sorted(t for t in edges if t in on_cycle or reach(t) & on_cycle)
 
 
+HEAVY_WORDS = 4096
+
+
+def min_words(items):
+    """{type name: number of 32-bit words of a typical generated value (every arm may be taken, optionals and counted arrays hold one
+    element)}.  Fixed-length arrays multiply: a chain of `t x[6]` through ten declarations has 6^10 elements in EVERY value, so neither
+    a valid value nor its prefixes can be enumerated; such types are exercised through their components only (the campaign lists
+    them under `skipped_heavy`)."""
+    consts, decl = {}, {}
+    for it in items:
+        if it["k"] == "const":
+            consts[it["name"]] = it["val"]
+        elif it["k"] in ("struct", "union", "typedef", "enum"):
+            decl[it["name"]] = it
+
+    def cval(s, depth=0):
+        if s is None or s == "":
+            return None
+        if re.fullmatch(r"[0-9]+", s):
+            return int(s)
+        if s.startswith("0x"):
+            try:
+                return int(s[2:], 16)
+            except ValueError:
+                return None
+        return cval(consts.get(s), depth + 1) if depth < 50 and s in consts else None
+
+    memo, busy = {}, set()
+    CAP = 10 ** 12
+
+    def ty(name):
+        if name in ("hyper", "unsigned hyper", "double", "int64_t", "uint64_t", "i64", "u64"):
+            return 2
+        if name not in decl:
+            return 1            # 32-bit primitives, bool, string / opaque (length word), unknown names
+        if name in memo:
+            return memo[name]
+        if name in busy:
+            return 1            # recursion goes through an optional or a counted array: one word suffices
+        busy.add(name)
+        it = decl[name]
+        if it["k"] == "enum":
+            w = 1
+        elif it["k"] == "struct":
+            w = sum(declr(f["ty"], f.get("arr"), f.get("opt")) for f in it["fields"])
+        elif it["k"] == "typedef":
+            w = declr(it["ty"], it.get("arr"), False)
+        else:
+            bodies = [0 if not isinstance(a.get("body"), dict) else declr(a["body"]["ty"], a["body"].get("arr"), False) for a in it["arms"]]
+            w = 1 + (max(bodies) if bodies else 0)
+        busy.discard(name)
+        memo[name] = min(w, CAP)
+        return memo[name]
+
+    def declr(t, arr, opt):
+        if opt:
+            return 1 + ty(t)
+        if not arr:
+            return ty(t)
+        if arr[0] == "var":
+            return 1 + (ty(t) if t not in ("opaque", "string") else 4)
+        n = cval(arr[1]) or 0
+        if t == "opaque":
+            return (n + 3) // 4
+        return min(n * ty(t), CAP)
+
+    return {n: ty(n) for n in decl}
+
+
 def type_names(ast_types_reply):
     # "ok a,b,c"
     return [t for t in ast_types_reply[3:].split(",") if t] if ast_types_reply.startswith("ok") else []
@@ -255,12 +324,17 @@ def _campaign(rng, tier, nspecs, nvals, opts, tag, with_clone, with_catalog=True
     batch = Batch(texts, with_clone=with_clone, tag=tag)
     spec_lines = ["spec " + t3.hx(t) for t in texts]
     loaded = run_driver(spec_lines)
+    heavy = [min_words(c.get("items") or []) for c in cases_spec]
+    skipped_heavy = sorted([k, t, w] for k, mw in enumerate(heavy) for t, w in mw.items() if w > HEAVY_WORDS)
+
+    def tnames(k, rep):     # the types of specification k whose values can be enumerated
+        return [t for t in type_names(rep) if heavy[k].get(t, 0) <= HEAVY_WORDS]
     # pass 1: valid values from the reference (value, documented result, marks)
     greqs, gmeta = [], []
     for k, rep in enumerate(loaded):
         if batch.status.get(str(k)) != "ok":
             continue
-        for ty in type_names(rep):
+        for ty in tnames(k, rep):
             for j in range(nvals):
                 seed = rng.below(1 << 30)
                 greqs.append("genval %d %s %d %d" % (k, ty, seed, 0))
@@ -275,7 +349,7 @@ def _campaign(rng, tier, nspecs, nvals, opts, tag, with_clone, with_catalog=True
     for k, rep in enumerate(loaded):
         if batch.status.get(str(k)) != "ok":
             continue
-        for ty in type_names(rep):
+        for ty in tnames(k, rep):
             for vk in range(1, 4 if tier == "quick" else 9):
                 oreqs.append("genover %d %s %d %d" % (k, ty, rng.below(1 << 30), vk))
                 ometa.append((k, ty))
@@ -293,6 +367,8 @@ def _campaign(rng, tier, nspecs, nvals, opts, tag, with_clone, with_catalog=True
         if len(f) < 3:
             continue
         hx, expect, marks = f[0], f[1], f[2].split()
+        if len(hx) > 400000:
+            continue        # a value above 200 kB: its prefixes and mutations would dominate the whole chunk
         nbase += 1
         b = bytes.fromhex(hx)
         add(k, ty, lead, b, "valid", nbase, expect)
@@ -334,7 +410,7 @@ def _campaign(rng, tier, nspecs, nvals, opts, tag, with_clone, with_catalog=True
     for k, rep in enumerate(loaded):
         if batch.status.get(str(k)) != "ok":
             continue
-        for ty in type_names(rep):
+        for ty in tnames(k, rep):
             for _ in range(3 if tier == "quick" else 12):
                 n = rng.below(9)
                 ws = b"".join(rng.choice(BOUNDARY_WORDS + [4, 5, 8, 9]).to_bytes(4, "big") if rng.chance(3, 4) else bytes(rng.below(256) for _ in range(4)) for _ in range(n))
@@ -344,7 +420,7 @@ def _campaign(rng, tier, nspecs, nvals, opts, tag, with_clone, with_catalog=True
     for k, rep in enumerate(loaded):
         if batch.status.get(str(k)) != "ok":
             continue
-        for ty in type_names(rep):
+        for ty in tnames(k, rep):
             for word, nwords in ((0xFFFFFFFF, 16), (0xFFFFFFFF, 256), (1, 256), (2, 64)) + (((0xFFFFFFFF, 2048), (3, 1024)) if tier != "quick" else ()):
                 add(k, ty, 0, word.to_bytes(4, "big") * nwords, "nested")
     # the decidable hypotheses of the specification-level theorems, evaluated by the model on every specification
@@ -356,7 +432,7 @@ def _campaign(rng, tier, nspecs, nvals, opts, tag, with_clone, with_catalog=True
     sizes = batch.run(["sizes %d" % k for k in range(len(texts))])
     for m, i, mo in zip(meta, impl, model):
         m["impl"], m["model"] = i, mo
-    return {"cases": meta, "specs": [{"text": c["text"], "flags": c["meta"]["flags"], "status": batch.status.get(str(k), "?"),
+    return {"cases": meta, "skipped_heavy": skipped_heavy, "specs": [{"text": c["text"], "flags": c["meta"]["flags"], "status": batch.status.get(str(k), "?"),
                                       "compile_errors": batch.compile_errors.get(str(k)), "loaded": loaded[k], "sizes": sizes[k],
                                       "arrrec": array_recursive(c.get("items") or []), "flags": flags[k]}
                                      for k, c in enumerate(cases_spec)]}
